@@ -33,7 +33,7 @@ Abs(x) == IF x < 0 THEN 0 - x ELSE x
 
 PointChecks(ev) ==
   LET g == ev.g  o == ev.op IN
-  CASE o = "pt.add" -> LET A == JacPt(g, ev.a)  Bp == JacPt(g, ev.b) IN
+  CASE o = "pt.add" -> LET A == JacPt(g, ev.a)  Bp == IF ev.alias = 3 THEN A ELSE JacPt(g, ev.b) IN
          << <<"pre.oncurve", OnC(g, A) /\ OnC(g, Bp)>>, <<"canon", CanonJ(g, ev.out.r)>>, <<"value", JacIsG(g, ev.out.r, PAddG(g, A, Bp))>> >>
     [] o = "pt.add_mixed" -> LET A == JacPt(g, ev.a)  Bp == AffPt(g, ev.b) IN
          << <<"pre.oncurve", OnC(g, A) /\ OnC(g, Bp)>>, <<"canon", CanonJ(g, ev.out.r)>>, <<"value", JacIsG(g, ev.out.r, PAddG(g, A, Bp))>> >>
@@ -47,6 +47,23 @@ PointChecks(ev) ==
     [] o = "pt.from_affine" -> << <<"canon", CanonJ(g, ev.out.r)>>, <<"value", JacIsG(g, ev.out.r, AffPt(g, ev.a))>> >>
     [] o = "pt.to_affine" -> << <<"value", AffPt(g, ev.out.r) = JacPt(g, ev.a)>>,
                                 <<"canon", ev.out.r[3] # 0 \/ (CF(g, ev.out.r[1]) /\ CF(g, ev.out.r[2]))>> >>
+    [] o \in {"pt.copy", "pt.set"} -> << <<"value", ev.out.r = ev.a>> >>
+    [] o \in {"pt.acopy", "pt.aset"} -> << <<"value", AffPt(g, ev.out.r) = AffPt(g, ev.a) /\ (ev.a[3] # 0 \/ ev.out.r = ev.a)>> >>
+    [] o = "mul.endo2" ->
+         LET Bs == JacPt(g, ev.base)
+             t0 == ModN(Norm(ev.c0), RMod)   t1 == MulMod(LambdaG1, ModN(Norm(ev.c1), RMod), RMod)
+             k  == AddMod(IF ev.n0 = 1 THEN NegMod(t0, RMod) ELSE t0, IF ev.n1 = 1 THEN NegMod(t1, RMod) ELSE t1, RMod)
+         IN << <<"pre.subgroup", OnC(g, Bs) /\ InSub(g, Bs)>>, <<"canon", CanonJ(g, ev.out.r)>>, <<"value", JacIsG(g, ev.out.r, SMul(g, k, Bs))>> >>
+    [] o = "mul.powx" ->
+         LET Bs == JacPt(g, ev.base) IN
+         << <<"pre.subgroup", OnC(g, Bs) /\ InSub(g, Bs)>>, <<"canon", CanonJ(g, ev.out.r)>>, <<"value", JacIsG(g, ev.out.r, SMul(g, Norm(ev.k), Bs))>> >>
+    \* the degree-1 maps used by the fast multiplications, stated through their eigenvalues on the order-r subgroups:
+    \* (x, y) |-> (beta x, y) acts on G1 as [-x^2] (LambdaG1); the twisted q-power Frobenius acts on G2 as [q mod r]
+    [] o = "pt.endo" -> LET A == JacPt(g, ev.a) IN
+         << <<"pre.subgroup", OnC(g, A) /\ InSub(g, A)>>, <<"canon", CanonJ(g, ev.out.r)>>, <<"value", JacIsG(g, ev.out.r, SMul(g, LambdaG1, A))>> >>
+    [] o = "pt.frob" -> LET A == JacPt(g, ev.a) IN
+         << <<"pre.subgroup", OnC(g, A) /\ InSub(g, A) /\ ev.power \in {0, 1}>>, <<"canon", CanonJ(g, ev.out.r)>>,
+            <<"value", JacIsG(g, ev.out.r, IF ev.power = 0 THEN A ELSE SMul(g, ModN(QMod, RMod), A))>> >>
     [] o = "pt.is_zero" -> << <<"value", ev.out.v = (IF JacPt(g, ev.a) = <<>> THEN 1 ELSE 0)>> >>
     [] o = "pt.on_curve" -> << <<"value", ev.out.v = (IF OnC(g, AffPt(g, ev.a)) THEN 1 ELSE 0)>> >>
     [] o = "pt.in_subgroup" -> << <<"pre.oncurve", OnC(g, AffPt(g, ev.a))>>, <<"value", ev.out.v = (IF InSub(g, AffPt(g, ev.a)) THEN 1 ELSE 0)>> >>
